@@ -230,7 +230,15 @@ class ConfigMachine(LoggedMachine):
     def _values_check(self, where: str):
         from AEIC.config import Config, config
 
-        for src_name, obj in (('get', Config.get()), ('proxy', config)):
+        try:
+            got_cfg = Config.get()
+        except core.PASS_THROUGH:
+            raise
+        except Exception as e:  # noqa: BLE001
+            self.ctx.fail('active.lost', type(e).__name__, 'Config.get', where.split(' while')[0].split(' ')[0:3] and 'configured',
+                          f'{where}: a configuration is active but Config.get() raised {e!r}')
+            return
+        for src_name, obj in (('get', got_cfg), ('proxy', config)):
             for key, want in self.model.items():
                 got = observe(obj, key)
                 if got != want:
